@@ -52,6 +52,18 @@ package bondmachine
 //@        vm.InputsValid[*], vm.OutputsValid[*], vm.InternalInputsValid[*], vm.InternalOutputsValid[*],
 //@        vm.InputsRecv[*], vm.OutputsRecv[*], vm.InternalInputsRecv[*], vm.InternalOutputsRecv[*]
 //@   frameonly
+// external ports: a BM input reaches the internal output that stands for it with its valid line, and the received line
+// of a BM output reaches the internal input that stands for it - each port its own (pre-compute phase)
+//@   loop 1: modifies vm.Internal_outputs_regs[*], vm.InternalOutputsValid[*]
+//@   loop 1: invariant ext_in: forall k int :: 0 <= k && k < $i && vm.Bmach.Internal_outputs[k].Map_to == 0 ==>
+//@             vm.Internal_outputs_regs[k] == vm.Inputs_regs[vm.Bmach.Internal_outputs[k].Res_id] && vm.InternalOutputsValid[k] == vm.InputsValid[vm.Bmach.Internal_outputs[k].Res_id]
+//@   loop 2: entry ext_in: forall k int :: 0 <= k && k < len(vm.Bmach.Internal_outputs) && vm.Bmach.Internal_outputs[k].Map_to == 0 ==>
+//@             vm.Internal_outputs_regs[k] == vm.Inputs_regs[vm.Bmach.Internal_outputs[k].Res_id] && vm.InternalOutputsValid[k] == vm.InputsValid[vm.Bmach.Internal_outputs[k].Res_id]
+//@   loop 4: modifies vm.InternalInputsRecv[*]
+//@   loop 4: invariant ext_recv: forall k int :: 0 <= k && k < $i && vm.Bmach.Internal_inputs[k].Map_to == 1 ==>
+//@             vm.InternalInputsRecv[k] == vm.OutputsRecv[vm.Bmach.Internal_inputs[k].Res_id]
+//@   loop 5: entry ext_recv: forall k int :: 0 <= k && k < len(vm.Bmach.Internal_inputs) && vm.Bmach.Internal_inputs[k].Map_to == 1 ==>
+//@             vm.InternalInputsRecv[k] == vm.OutputsRecv[vm.Bmach.Internal_inputs[k].Res_id]
 //@   loop 5: modifies dataRecv[*]
 //@   loop 5: invariant keys1: forall j int :: haskey(dataRecv, j) ==> fedBy(vm, j, i)
 //@   loop 5: invariant keys3: forall j int :: haskey(dataRecv, j) ==> j != -1
